@@ -197,8 +197,12 @@ func (n *networkAddressTranslator) translateOutbound(from Chunk) (Chunk, error) 
 			mapp := n.findOutboundMapping(oKey)
 			if mapp == nil {
 				// Create a new mapping
-				mappedPort := 0xC000 + n.udpPortCounter
-				n.udpPortCounter++
+				mappedPort, ok := n.assignUDPPort()
+				if !ok {
+					n.log.Warnf("[%s] no free port, drop outbound chunk %s", n.name, from.String())
+
+					return nil, nil // nolint:nilnil
+				}
 
 				mapp = &mapping{
 					proto:   from.SourceAddr().Network(),
@@ -298,6 +302,29 @@ func (n *networkAddressTranslator) translateInbound(from Chunk) (Chunk, error) {
 	}
 
 	return nil, errNonUDPTranslationNotSupported
+}
+
+// assignUDPPort returns the next port of the dynamic range (0xC000-0xFFFF)
+// that no live mapping uses; it wraps around and reports false if every port
+// is taken.
+// caller must hold the mutex.
+func (n *networkAddressTranslator) assignUDPPort() (int, bool) {
+	const (
+		firstPort = 0xC000
+		numPorts  = 0x10000 - firstPort
+	)
+
+	for i := 0; i < numPorts; i++ {
+		port := firstPort + n.udpPortCounter%numPorts
+		n.udpPortCounter++
+
+		iKey := fmt.Sprintf("udp:%s:%d", n.mappedIPs[0].String(), port)
+		if n.findInboundMapping(iKey) == nil {
+			return port, true
+		}
+	}
+
+	return 0, false
 }
 
 // caller must hold the mutex.
